@@ -3760,3 +3760,161 @@ Proof.
     split; [exists e; reflexivity|]. repeat (split; [assumption|]).
     unfold retry_allowed. rewrite B9. cbn [negb andb]. unfold stat in B1. destruct (aget (c_towers (f_c s2)) t); [|discriminate]. rewrite B4. reflexivity.
 Qed.
+
+(* ---- the manager side of recovery: wake-up after the auto-retry delay, start ---- *)
+Lemma retriers_set_status_aget c k st t : aget (c_retriers (wt_set_tower_status c k st)) t = aget (c_retriers c) t.
+Proof. rewrite retriers_set_status. reflexivity. Qed.
+
+Definition tsame (t : N) (s s' : fstate) : Prop :=
+  aget (f_mgr s') t = aget (f_mgr s) t /\ aget (c_retriers (f_c s')) t = aget (c_retriers (f_c s)) t /\
+  stat (f_c s') t = stat (f_c s) t /\ c_db (f_c s') = c_db (f_c s) /\ f_chan s' = f_chan s /\
+  (In t (f_tasks s') <-> In t (f_tasks s)) /\ f_mgr_dead s' = f_mgr_dead s.
+Lemma tsame_refl t s : tsame t s s.  Proof. repeat split; auto. Qed.
+Lemma tsame_trans t a b c : tsame t a b -> tsame t b c -> tsame t a c.
+Proof.
+  intros [A1 [A2 [A3 [A4 [A5 [A6 A7]]]]]] [B1 [B2 [B3 [B4 [B5 [B6 B7]]]]]]. repeat split; try congruence.
+  - intros H. apply A6, B6, H.
+  - intros H. apply B6, A6, H.
+Qed.
+
+Lemma wake_tsame t s k r : k <> t -> tsame t s (wake s k r).
+Proof.
+  intros Hn. unfold wake, tsame. cbn [f_mgr f_c f_chan f_tasks f_mgr_dead put_retrier set_mgr set_c c_retriers c_db with_retriers].
+  rewrite aget_aset_other by congruence. rewrite aget_aremove. assert (E : N.eqb t k = false) by (apply N.eqb_neq; congruence). rewrite E.
+  repeat split; auto.
+Qed.
+
+Lemma start_tsame t s k r s' : k <> t -> retrier_start s k r = (s', None) -> tsame t s s'.
+Proof.
+  intros Hn. unfold retrier_start. destruct (aget (c_towers (f_c s)) k) as [su|]; [|discriminate]. intros E. inversion E. subst s'. clear E.
+  unfold tsame. cbn [f_mgr f_c f_chan f_tasks f_mgr_dead set_tasks put_retrier set_mgr set_c c_retriers c_db with_retriers].
+  assert (Et : N.eqb t k = false) by (apply N.eqb_neq; congruence).
+  rewrite aget_aset_other by congruence. rewrite aget_aset, Et.
+  split; [reflexivity|]. split.
+  { destruct (is_subscription_error (su_status su)); [reflexivity|apply retriers_set_status_aget]. }
+  split.
+  { unfold stat. cbn [c_towers with_retriers]. destruct (is_subscription_error (su_status su)); [reflexivity|].
+    change (option_map su_status (aget (c_towers (wt_set_tower_status (f_c s) k TemporaryUnreachable)) t)) with (stat (wt_set_tower_status (f_c s) k TemporaryUnreachable) t).
+    rewrite stat_set_status, Et. reflexivity. }
+  split; [destruct (is_subscription_error (su_status su)); [reflexivity|apply DbInv_set_status]|].
+  split; [reflexivity|]. split; [|reflexivity].
+  rewrite in_app_iff. cbn. split; [intros [H|[H|[]]]; [exact H|congruence]|tauto].
+Qed.
+
+(* the manager's map has one retrier per tower *)
+Definition MgrKeys (s : fstate) : Prop := NoDup (map fst (f_mgr s)).
+
+Lemma NoDup_keys_aretain {V} (p : N -> bool) (m : amap V) : NoDup (map fst m) -> NoDup (map fst (aretain p m)).
+Proof.
+  unfold aretain. induction m as [|[k v] m IH]; cbn; intros H; [constructor|]. inversion H as [|? ? Hk Hm]. subst.
+  destruct (p k); cbn; [constructor; [|apply IH, Hm]|apply IH, Hm].
+  intros Hin. apply Hk. apply in_map_iff in Hin. destruct Hin as [[k' v'] [E Hin]]. cbn in E. subst. apply filter_In in Hin.
+  apply in_map_iff. exists (k, v'). split; [reflexivity|tauto].
+Qed.
+Lemma keys_aremove_notin {V} (m : amap V) k : ~ In k (map fst (aremove m k)).
+Proof.
+  unfold aremove, aretain. intros H. apply in_map_iff in H. destruct H as [[k' v'] [E Hin]]. cbn in E. subst. apply filter_In in Hin.
+  destruct Hin as [_ Hin]. cbn in Hin. rewrite N.eqb_refl in Hin. discriminate.
+Qed.
+Lemma NoDup_keys_aset {V} (m : amap V) k v : NoDup (map fst m) -> NoDup (map fst (aset m k v)).
+Proof. intros H. unfold aset. cbn. constructor; [apply keys_aremove_notin|apply NoDup_keys_aretain, H]. Qed.
+
+Lemma MgrKeys_put s t r : MgrKeys s -> MgrKeys (put_retrier s t r).
+Proof. unfold MgrKeys, put_retrier, set_mgr. cbn [f_mgr]. apply NoDup_keys_aset. Qed.
+Lemma MgrKeys_same s s' : f_mgr s' = f_mgr s -> MgrKeys s -> MgrKeys s'.
+Proof. unfold MgrKeys. intros ->. auto. Qed.
+
+Lemma MgrKeys_drop s t l : MgrKeys s -> MgrKeys (retrier_drop s t l).
+Proof. intros H. unfold retrier_drop. destruct (aget (f_mgr s) t); [apply MgrKeys_put|]; exact H. Qed.
+
+Lemma MgrKeys_run_for t : forall locs s adds, MgrKeys s -> MgrKeys (fst (fst (run_for s t locs adds))).
+Proof.
+  induction locs as [|l locs IH]; intros s adds H; cbn [run_for]; [exact H|].
+  destruct (poisoned s); [exact H|]. destruct (dbm_load_appointment (c_db (f_c s)) l); [|exact H].
+  destruct (next_reply adds) as [rp a1]. destruct rp; cbn [fst]; try exact H.
+  - destruct (wt_add_appointment_receipt _ _ _ _ _ _ _) as [c2 r2]. destruct (lift_site r2); cbn [fst]; [apply (MgrKeys_drop (log_req s _)), H|].
+    destruct (wt_remove_pending_appointment c2 t l) as [c3 r3]. destruct (lift_site r3); cbn [fst]; [apply (MgrKeys_drop (log_req s _)), H|].
+    apply IH. apply (MgrKeys_drop (log_req s _)), H.
+  - destruct (wt_add_invalid_appointment _ _ _ _ _) as [c2 r2]. destruct (lift_site r2); cbn [fst]; [apply (MgrKeys_drop (log_req s _)), H|].
+    destruct (wt_remove_pending_appointment c2 t l) as [c3 r3]. destruct (lift_site r3); cbn [fst]; [apply (MgrKeys_drop (log_req s _)), H|].
+    apply IH. apply (MgrKeys_drop (log_req s _)), H.
+Qed.
+
+Lemma MgrKeys_run_while t hint : forall fuel s adds, MgrKeys s -> MgrKeys (fst (run_while fuel s t hint adds)).
+Proof.
+  induction fuel as [|f IH]; intros s adds H; cbn [run_while]; [exact H|]. destruct (retrier_pending s t) as [|x p]; [exact H|].
+  pose proof (MgrKeys_run_for t (reorder hint (x :: p)) s adds H) as H1.
+  destruct (run_for s t (reorder hint (x :: p)) adds) as [[s1 a1] [r|]]; cbn [fst] in *; [exact H1|apply IH, H1].
+Qed.
+
+Lemma MgrKeys_run_attempt s t a : MgrKeys s -> MgrKeys (fst (run_attempt s t a)).
+Proof.
+  intros H. unfold run_attempt. destruct (poisoned s); [exact H|]. destruct (aget (c_towers (f_c s)) t) as [su|]; [|exact H].
+  destruct (is_subscription_error (su_status su)); [|apply MgrKeys_run_while, H].
+  destruct (at_reg a); try exact H. destruct (negb sig_ok); [exact H|].
+  destruct (wt_add_update_tower _ _ _ _ _ _ _) as [c' r]. destruct r; try exact H. apply MgrKeys_run_while. exact H.
+Qed.
+
+Lemma MgrKeys_set_status s t st : MgrKeys s -> MgrKeys (retrier_set_status s t st).
+Proof. intros H. unfold retrier_set_status. destruct (aget (f_mgr s) t); [apply MgrKeys_put|]; exact H. Qed.
+Lemma MgrKeys_clear s t : MgrKeys s -> MgrKeys (retrier_clear s t).
+Proof. intros H. unfold retrier_clear. destruct (aget (f_mgr s) t); [apply MgrKeys_put|]; exact H. Qed.
+
+Lemma MgrKeys_task_step s t r more : MgrKeys s -> MgrKeys (fst (task_step s t r more)).
+Proof.
+  intros H. unfold task_step. destruct r as [|e|site|]; cbn [fst]; try exact H.
+  - apply (MgrKeys_set_status (set_c s _)). exact H.
+  - destruct (negb (is_permanent e) && more); [exact H|].
+    assert (H1 : MgrKeys (if is_permanent e then retrier_set_status s t RFailed else s)) by (destruct (is_permanent e); [apply MgrKeys_set_status|]; exact H).
+    destruct e as [[|]| |l|]; cbn [fst]; try exact H1.
+    + apply MgrKeys_clear. apply (MgrKeys_set_status (set_c _ _)). exact H1.
+    + apply MgrKeys_clear. apply (MgrKeys_set_status (set_c _ _)). exact H1.
+    + destruct (wt_flag_misbehaving_tower _ _ _ _ _ _ _) as [c2 r2]. destruct (lift_site r2); exact H1.
+Qed.
+
+Lemma MgrKeys_retrier_run t : forall atts s, MgrKeys s -> MgrKeys (fst (f_retrier_run s t atts)).
+Proof.
+  induction atts as [|a atts IH]; intros s H; cbn [f_retrier_run]; [exact H|]. destruct (negb (memN t (f_tasks s))); [exact H|].
+  pose proof (MgrKeys_run_attempt s t a H) as H1. destruct (run_attempt s t a) as [s1 r]. cbn [fst] in H1.
+  pose proof (MgrKeys_task_step s1 t r (at_more a) H1) as H2. destruct (task_step s1 t r (at_more a)) as [s2 o]. cbn [fst] in H2.
+  destruct o; try exact H2. destruct atts; [exact H2|apply IH, H2].
+Qed.
+
+Lemma MgrKeys_wake s t r : MgrKeys s -> MgrKeys (wake s t r).
+Proof. intros H. unfold wake. apply MgrKeys_put. exact H. Qed.
+
+Lemma MgrKeys_sweep elapsed : forall keys s st wk, MgrKeys s -> MgrKeys (fst (fst (fst (sweep s keys elapsed st wk)))).
+Proof.
+  induction keys as [|k keys IH]; intros s st wk H; cbn [sweep]; [exact H|].
+  destruct (aget (f_mgr s) k) as [r|]; [|apply IH, H]. destruct (should_start r).
+  - destruct (retrier_start s k r) as [s1 [site|]] eqn:E; cbn [fst].
+    + unfold retrier_start in E. destruct (aget (c_towers (f_c s)) k); inversion E. exact H.
+    + apply IH. unfold retrier_start in E. destruct (aget (c_towers (f_c s)) k); inversion E. apply (MgrKeys_put (set_c s _)). exact H.
+  - destruct (is_idle (r_status r) && memN k elapsed); apply IH; [apply MgrKeys_wake|]; exact H.
+Qed.
+
+Lemma MgrKeys_fstep s o : MgrKeys s -> MgrKeys (fst (fstep s o)).
+Proof.
+  intros H. destruct o; cbn [fstep].
+  - apply (MgrKeys_same s); [apply f_register_mgr|exact H].
+  - apply (MgrKeys_same s); [apply f_revocation_mgr|exact H].
+  - unfold f_manager_tick. destruct (f_mgr_dead s); [exact H|]. destruct (f_chan s) as [|[t d] rest].
+    + unfold mgr_sweep. match goal with |- context [if ?b then _ else _] => destruct b end; [exact H|]. cbv zeta.
+      assert (H1 : MgrKeys (retain_state s)) by (unfold MgrKeys, retain_state, set_mgr; cbn [f_mgr]; apply NoDup_keys_aretain, H).
+      match goal with |- context [if ?b then _ else _] => destruct b end; [exact H1|].
+      pose proof (MgrKeys_sweep elapsed (map fst (f_mgr (retain_state s))) (retain_state s) [] [] H1) as H2.
+      destruct (sweep (retain_state s) (map fst (f_mgr (retain_state s))) elapsed [] []) as [[[s2 a] b] [site|]]; exact H2.
+    + unfold mgr_receive. match goal with |- context [if ?b then _ else _] => destruct b end; [exact H|].
+      match goal with |- context [if ?b then _ else _] => destruct b end; [exact H|].
+      cbn [f_mgr set_chan]. destruct (aget (f_mgr s) t) as [r|] eqn:E.
+      * destruct (is_idle (r_status r)); [destruct (rdata_is_none d); [apply MgrKeys_wake|]; exact H|].
+        cbn [fst]. unfold add_pending_appointments. cbn [f_mgr set_chan]. rewrite E. apply MgrKeys_put. exact H.
+      * cbn [fst]. unfold add_pending_appointments. cbn [f_mgr set_chan]. rewrite E. apply MgrKeys_put. exact H.
+  - pose proof (MgrKeys_retrier_run t atts s H) as H1. destruct (f_retrier_run s t atts). exact H1.
+  - apply (MgrKeys_same s); [apply f_manual_retry_mgr|exact H].
+  - apply (MgrKeys_same s); [apply f_abandon_mgr|exact H].
+  - constructor.
+Qed.
+
+Lemma MgrKeys_frun ops : forall s, MgrKeys s -> MgrKeys (frun s ops).
+Proof. induction ops as [|o ops IH]; intros s H; cbn; [exact H|apply IH, MgrKeys_fstep, H]. Qed.
